@@ -21,17 +21,18 @@ import (
 // C19 — data crosses the UDF boundary unchanged and the protocol is framed safely.
 
 type c19Msg struct {
-	Batch    bool                     `json:"batch"`
-	Name     string                   `json:"name"`
-	DB       string                   `json:"db,omitempty"`
-	RP       string                   `json:"rp,omitempty"`
-	Tags     map[string]string        `json:"tags"`
-	Dims     []string                 `json:"dims"`
-	ByName   bool                     `json:"by_name"`
-	TimeNs   int64                    `json:"time_ns"`
-	Fields   map[string]interface{}   `json:"fields,omitempty"`
-	Points   []map[string]interface{} `json:"points,omitempty"`      // batch: fields per point
-	ZeroHint bool                     `json:"size_hint_0,omitempty"` // the batch's begin announces 0 points
+	Batch     bool                     `json:"batch"`
+	Name      string                   `json:"name"`
+	DB        string                   `json:"db,omitempty"`
+	RP        string                   `json:"rp,omitempty"`
+	Tags      map[string]string        `json:"tags"`
+	Dims      []string                 `json:"dims"`
+	ByName    bool                     `json:"by_name"`
+	TimeNs    int64                    `json:"time_ns"`
+	Newest1st bool                     `json:"points_newest_first,omitempty"` // the points of the batch are in descending time order (ORDER BY time DESC)
+	Fields    map[string]interface{}   `json:"fields,omitempty"`
+	Points    []map[string]interface{} `json:"points,omitempty"`      // batch: fields per point
+	ZeroHint  bool                     `json:"size_hint_0,omitempty"` // the batch's begin announces 0 points
 }
 
 type c19Scenario struct {
@@ -137,7 +138,11 @@ func (m c19Msg) build() edge.Message {
 	}
 	var pts []edge.BatchPointMessage
 	for i, f := range m.Points {
-		pts = append(pts, edge.NewBatchPointMessage(models.Fields(simrt.CloneMap(f)), models.Tags(simrt.CloneMap(m.Tags)), time.Unix(0, m.TimeNs-int64(len(m.Points)-i)).UTC()))
+		at := m.TimeNs - int64(len(m.Points)-i)
+		if m.Newest1st {
+			at = m.TimeNs - 1 - int64(i)
+		}
+		pts = append(pts, edge.NewBatchPointMessage(models.Fields(simrt.CloneMap(f)), models.Tags(simrt.CloneMap(m.Tags)), time.Unix(0, at).UTC()))
 	}
 	hint := len(pts)
 	if m.ZeroHint {
